@@ -16,7 +16,7 @@ def main(tier, t0):
         tasks += stage_check.tasks_for("C17", tier, scenario="pair:e2e:" + json.dumps(opt, sort_keys=True), judge="C17e", sizes=lambda t, k: [3] if t == "quick" else [2, 3, 4],
                                        structure_filter=lambda st: st["name"] in structs, cfg={"fixed_flags": {"remove_empty_shapes": True, "disable_exact_cardinality": False},
                                             # the SHACL rendering (sh:pattern) of both runs is produced and judged too for the stem-only pair
-                                            "want_shacl": opt == {"detect_minimal_iri": True}})
+                                            "want_shacl": opt in ({"detect_minimal_iri": True}, {"examples_mode": "all"}, {"examples_mode": "shape"})})
     # instances drawn from 1..3 namespaces with shared / unshared path segments, bare schemes, too short stems
     for opt in ({"detect_minimal_iri": True}, {"examples_mode": "all", "detect_minimal_iri": True}):
         tasks += stage_check.tasks_for("C17", tier, scenario="pair:e2e:" + json.dumps(opt, sort_keys=True), judge="C17e", sizes=lambda t, k: [k + 1] if t == "quick" else [k, k + 1, k + 2],
